@@ -24,8 +24,39 @@ def hx(bs):
     return "".join("%02x" % b for b in bs)
 
 
-def ftok(frags):
-    return "n" if frags is None else "f" + ",".join(hx(f) for f in frags)
+def ftok(frags, nulls=()):
+    """fragment list as case token; an EMPTY fragment whose index is in `nulls` is written `_`: { NULL, 0 } instead of an
+    empty fragment with a live address (zero-size heap block)"""
+    if frags is None:
+        return "n"
+    return "f" + ",".join("_" if (not f and i in nulls) else hx(f) for i, f in enumerate(frags))
+
+
+def empties(F):
+    return [i for i, f in enumerate(F) if not f] if F is not None else []
+
+
+def null_variant(F):
+    """which empty fragments lose their address in the second copy of an exhaustive case: all of them for every other
+    fragmentation, else a non-empty subset picked by the case's checksum (over the 7^n strings of one composition every
+    subset turns up)"""
+    e = empties(F)
+    c = zlib.crc32(("N" + ftok(F)).encode())
+    if not e or c % 2 == 0:
+        return frozenset(e)
+    m = (c >> 1) % (2 ** len(e) - 1) + 1
+    return frozenset(i for k, i in enumerate(e) if m >> k & 1)
+
+
+def fparts(f):
+    """fragment tokens of a header / set argument; (`_` and the empty string are both empty fragments)"""
+    return f[1:].split(",")
+
+
+def fjoin(a, b):
+    """two neighbouring fragment tokens merged"""
+    r = a.replace("_", "") + b.replace("_", "")
+    return r or ("_" if "_" in (a, b) else "")
 
 
 def compositions(n, k):
@@ -59,7 +90,7 @@ def static_ops(n, noparts=False, extra=True):
         ops.append(["rstr", s])
     for t in TOKS:
         ops.append(["tok"] + list(t))
-    dests = ["n", str(n), "0,%d,0,%d" % (n // 2, n - n // 2 + 1), "1,1,0,1", str(n + 2)]
+    dests = ["n", str(n), "0,%d,0,%d" % (n // 2, n - n // 2 + 1), "1,1,0,1", str(n + 2), "_,%d,_,%d,_" % (n - n // 2, n // 2)]
     for ln in sorted(set([-1, 0, 1, n, n + 1])):
         for d in dests:
             if ln > 0 and (noparts or d == "n") and not PATCHED_MEMCPY_NOPARTS:
@@ -95,9 +126,9 @@ def static_ops(n, noparts=False, extra=True):
     return ops
 
 
-def mutating_ops(F, n):
+def mutating_ops(F, n, nulls=()):
     ops = []
-    f = ftok(F)
+    f = ftok(F, nulls)
     for k in range(0, n + 2):
         ops += [["set", f], ["read", str(k), "1"], ["len"], ["read", "1", "1"]]
     ops += [["set", f], ["read", str(max(1, n // 2)), "0"], ["read", str(n), "1"]]
@@ -116,11 +147,27 @@ def flat(ops):
     return [t for o in ops for t in o]
 
 
-def full_case(F):
+def full_case(F, nulls=()):
     n = sum(len(f) for f in F) if F is not None else 0
-    extra = F is None or zlib.crc32(ftok(F).encode()) % 8 == 0
-    return " ".join([ftok(F)] + flat(static_ops(n, F is None, extra)) + (flat(mutating_ops(F, n)) if F is not None else
-                                                                 ["read", "1", "1", "argv", "32", "len"]))
+    extra = F is None or (not nulls and zlib.crc32(ftok(F).encode()) % 8 == 0)
+    return " ".join([ftok(F, nulls)] + flat(static_ops(n, F is None, extra)) +
+                    (flat(mutating_ops(F, n, nulls)) if F is not None else ["read", "1", "1", "argv", "32", "len"]))
+
+
+def both_case(F):
+    """an exhaustive case; when F has zero-length fragments the whole operation list runs a second time (same process, after
+    a `set`) on the fragmentation whose empty fragments have no address: { NULL, 0 }"""
+    c = full_case(F)
+    if not empties(F):
+        return c
+    nulls = null_variant(F)
+    n = sum(len(f) for f in F)
+    return " ".join([c, "set", ftok(F, nulls)] + flat(static_ops(n, False, False)) + flat(mutating_ops(F, n, nulls)))
+
+
+def rand_nulls(rng, F):
+    """random cases: every empty fragment is { NULL, 0 } with probability 1/2"""
+    return frozenset(i for i in empties(F) if rng.random() < 0.5)
 
 
 def get_cases(maxcap):
@@ -152,9 +199,12 @@ class C17(DiffProperty):
     harness_env = dict(ASAN_ENV, ASAN_OPTIONS=ASAN_ENV["ASAN_OPTIONS"] + ":symbolize=0")
     rule = ("a case = one fragmentation of one byte string + the operations run on it; quick: EVERY string of length <= 3 over "
             "{00,20,27,22,5c,41,0a} x EVERY composition of its length into 1..4 fragments (zero-length fragments included, and the "
-            "message without any part) x {length; memchr/memrchr of each alphabet byte and an absent one; memfcn/memrfcn with "
+            "message without any part); every fragmentation that has zero-length fragments is run TWICE (one case, second half after a `set`): with each of them in a live "
+            "zero-size heap block, and with empty fragments WITHOUT address {NULL,0} (as MPT_MESSAGE_INIT / a zeroed iovec: all of "
+            "them for every other case, else a checksum-picked non-empty subset, so every position mix occurs); each "
+            "x {length; memchr/memrchr of each alphabet byte and an absent one; memfcn/memrfcn with "
             "isspace/!isspace/isgraph; memstr/memrstr with 3 sets; memtok with 14 token/comment/escape settings; memcpy with 5 "
-            "lengths (-1,0,1,n,n+1) x 5 target shapes (a zero part count with a positive length only once PATCHED_MEMCPY_NOPARTS "
+            "lengths (-1,0,1,n,n+1) x 6 target shapes (one with {NULL,0} target parts around the live ones; a zero part count with a positive length only once PATCHED_MEMCPY_NOPARTS "
             "is set); append to an empty and a filled array; append to arrays that refuse: typed buffer (the real refusal of "
             "mpt_array_append) and the 1st..4th mpt_array_append call failing (link-time seam) with an empty and a filled array; "
             "array_message with 4 separators; array_message while the k-th array call (reservation, argument, separator) fails for "
@@ -164,7 +214,8 @@ class C17(DiffProperty):
             "read of every length 0..n+1 followed by length and another read; read with NULL target; argv with 5 separators twice; "
             "for single parts the same cursor operations with a NULL continuation pointer} "
             "(exhaustive), every ring of capacity <= 4 x offset x fill x (off,take) window for message_get, plus every string of length 4 with 5 "
-            "random fragmentations and 3000 random strings of length 5..6 with all their operations; thorough: the same exhaustively up to length 4 plus random strings up "
+            "random fragmentations and 3000 random strings of length 5..6 with all their operations (there every empty fragment is "
+            "{NULL,0} with probability 1/2); thorough: the same exhaustively up to length 4 plus random strings up "
             "to length 24 over the alphabet extended by 09,0d,23,2c; a case is non-trivial when it has >= 2 fragments or an empty one")
     modelled = ("mptcore/message/{message_read,memchr,memfcn,memstr,memtok,memcpy,message_argv,message_append,message_get}.c and "
                 "array/array_message.c transcribed in coq/C17/MessageModel.v, including their refusal branches: mpt_message_append "
@@ -177,7 +228,8 @@ class C17(DiffProperty):
                 "(memchr.c:41, memfcn.c:45-46, memtok.c:117: the preceding parts have all been scanned, so more than SSIZE_MAX bytes "
                 "of readable memory would be needed) and memtok.c:112 (dead: C17_memtok_found_unquoted)")
     trusted = ["harness/c17_message.c places every fragment, the continuation iovec array and every target part in its own exact-size "
-               "heap block and reads the cursor back from (base,used,cont,clen) without library calls",
+               "heap block (an empty fragment written `_` gets NO block: iov_base = NULL, iov_len = 0; likewise `_` target parts of "
+               "memcpy) and reads the cursor back from (base,used,cont,clen) without library calls",
                "harness/c17_message.c: mpt_array_append / mpt_array_slice as called from inside the library are replaced at link time "
                "(-Wl,--wrap) by a counter that lets the first k calls through to the real functions and then returns NULL without "
                "touching the array, as a failed allocation does; typed-buffer refusals are the real ones",
@@ -193,7 +245,9 @@ class C17(DiffProperty):
                   "array refuses (all of the flat text or nothing, the same error at the same call as on the flat text) and when a "
                   "position is not representable (EOVERFLOW exactly then); the model is tied to the code on every run by "
                   "differential execution (exhaustive over all short strings x all fragmentations x all operations) under ASan/UBSan "
-                  "with one exact-size heap block per fragment")
+                  "with one exact-size heap block per fragment; the model has no notion of a fragment's address (a fragment is its byte "
+                  "list), so the theorems say that an empty fragment contributes nothing wherever it lives - the run therefore "
+                  "presents empty fragments both with a live address and as {NULL,0}")
     level_note = ("trusted: Coq kernel; hand transcription of the C files (validated by the correspondence run, not verified); "
                   "extraction and OCaml driver; harness incl. its link-time failure seam. mpt_memcpy: the theorem is now FULL "
                   "(every pair of fragment lists, zero part counts included) and holds of the code WITH docs/C17_memcpy_noparts.diff "
@@ -254,13 +308,19 @@ class C17(DiffProperty):
             if f == "n":
                 cl.add("no-part")
                 continue
-            parts = f[1:].split(",")
+            parts = fparts(f)
             if len(parts) > 1:
                 cl.add("fragments>=2")
-            if any(p == "" for p in parts) and len(parts) > 1:
+            if any(p in ("", "_") for p in parts) and len(parts) > 1:
                 cl.add("empty-fragment")
-            if len(parts) >= 2 and parts[0] == "":
+            if len(parts) >= 2 and parts[0] in ("", "_"):
                 cl.add("empty-first")
+            if "_" in parts:
+                cl.add("null-base-fragment")
+                if "_" in parts[1:-1] and any(len(p) > 1 for p in parts[parts.index("_"):]):
+                    cl.add("null-base-inside")
+            if "" in parts:
+                cl.add("live-empty-fragment")
         for o in ops:
             if o[0] != "set":
                 cl.add("op:" + o[0])
@@ -303,14 +363,17 @@ class C17(DiffProperty):
             yield self.join(hdr, ops[:k] + ops[k + 1:])
         f = hdr[0]
         if f != "n":
-            parts = f[1:].split(",")
-            # drop a fragment, merge two neighbours, drop a byte, simplify a byte
+            parts = fparts(f)
+            # drop a fragment, merge two neighbours, give an empty fragment an address, drop a byte, simplify a byte
             for i in range(len(parts)):
                 if len(parts) > 1:
-                    yield self.join(["f" + ",".join(parts[:i] + parts[i + 1:])], ops)
+                    yield self.join([f[0] + ",".join(parts[:i] + parts[i + 1:])], ops)
                 if i + 1 < len(parts):
-                    yield self.join(["f" + ",".join(parts[:i] + [parts[i] + parts[i + 1]] + parts[i + 2:])], ops)
+                    yield self.join([f[0] + ",".join(parts[:i] + [fjoin(parts[i], parts[i + 1])] + parts[i + 2:])], ops)
                 p = parts[i]
+                if p == "_":
+                    yield self.join([f[0] + ",".join(parts[:i] + [""] + parts[i + 1:])], ops)
+                    continue
                 for j in range(0, len(p), 2):
                     yield self.join(["f" + ",".join(parts[:i] + [p[:j] + p[j + 2:]] + parts[i + 1:])], ops)
                     if p[j:j + 2] != "41":
@@ -335,7 +398,7 @@ class C17(DiffProperty):
         exh = 3 if tier == "quick" else 4
         for s in self.strings(exh):
             for F in self.all_frags(s):
-                cases.append(full_case(F))
+                cases.append(both_case(F))
         cases += get_cases(4 if tier == "quick" else 6)
         if tier == "quick":
             # every string of length 4 with 5 random fragmentations
@@ -343,7 +406,8 @@ class C17(DiffProperty):
                 for _ in range(5):
                     k = rng.choice([2, 3, 3, 4, 4])
                     cuts = sorted(rng.randrange(0, 5) for _ in range(k - 1))
-                    cases.append(full_case([list(s[a:b]) for a, b in zip([0] + cuts, cuts + [4])]))
+                    F = [list(s[a:b]) for a, b in zip([0] + cuts, cuts + [4])]
+                    cases.append(full_case(F, rand_nulls(rng, F)))
         # random longer strings
         nrand = 3000 if tier == "quick" else 60000
         big = ALPHA + [0x09, 0x0d, 0x23, 0x2c]
@@ -357,7 +421,7 @@ class C17(DiffProperty):
             k = rng.choice([1, 2, 2, 3, 3, 4, 4, 5])
             cuts = sorted(rng.randrange(0, n + 1) for _ in range(k - 1))
             F = [s[a:b] for a, b in zip([0] + cuts, cuts + [n])]
-            cases.append(full_case(F))
+            cases.append(full_case(F, rand_nulls(rng, F)))
         return cases
 
 
